@@ -215,3 +215,15 @@ pub fn ma_by_name(kind: &str, n: yata::core::PeriodType) -> yata::helpers::MA {
 		_ => MA::Vidya(n),
 	}
 }
+
+/// crossing rule on the difference value - base: +1 if it was negative on the previous step and is
+/// non-negative now, -1 in the mirrored case, 0 otherwise
+pub fn r_cross(prev_delta: ValueType, cur_delta: ValueType) -> i8 {
+	let up = prev_delta < 0.0 && cur_delta >= 0.0;
+	let down = prev_delta > 0.0 && cur_delta <= 0.0;
+	(up as i8) - (down as i8)
+}
+/// full buy / full sell / none from a sign
+pub fn r_action(sign: i8) -> yata::core::Action {
+	yata::core::Action::from(sign)
+}
